@@ -701,6 +701,13 @@ func init() {
 			v := args[0].(*OpaqueV)
 			return []Value{rvPath(v, "elem")}
 		},
+		"(reflect.Value).Addr": func(s *State, fn *ssa.Function, args []Value, where string) []Value {
+			v := args[0].(*OpaqueV)
+			if r, _ := rvRoot(v); r != nil {
+				return []Value{rvPath(v, "addr")}
+			}
+			return []Value{&OpaqueV{Kind: "reflect.Value", T: App("rv_addr", BV(64), v.T)}}
+		},
 		"(reflect.Value).FieldByName": func(s *State, fn *ssa.Function, args []Value, where string) []Value {
 			v := args[0].(*OpaqueV)
 			return []Value{rvPath(v, "field:"+args[1].(*StringV).litOr("?"))}
@@ -725,7 +732,8 @@ func init() {
 			v := args[0].(*OpaqueV)
 			root, path := rvRoot(v)
 			if root == nil {
-				return []Value{s.freshVar("rv.uint", BV(64))}
+				// the unsigned value held by an arbitrary reflect.Value: a function of the value's identity
+				return []Value{App("rv_uint_val", BV(64), v.T)}
 			}
 			if st := s.rvStore[root.id]; st != nil {
 				if x, ok := st[strings.TrimPrefix(path, "ptr/elem/field:")]; ok {
@@ -738,7 +746,33 @@ func init() {
 			v := args[0].(*OpaqueV)
 			root, _ := rvRoot(v)
 			if root == nil {
-				return []Value{s.symValue(types.NewInterfaceType(nil, nil), "rv.iface")}
+				// Interface() of an arbitrary reflect.Value: dynamic type and payload are functions of its identity;
+				// a pointer payload denotes ONE cell per (value, type), so code and contract see the same memory
+				h := v.T
+				iv := &IfaceV{Type: App("rv_dyntype", BV(32), h), Handle: h, alts: map[int]Value{}, Static: types.NewInterfaceType(nil, nil)}
+				iv.mk = func(tid int) Value {
+					key := fmt.Sprintf("%d/%d", h.id, tid)
+					if s.rvCells == nil {
+						s.rvCells = map[string]Value{}
+					}
+					if c, ok := s.rvCells[key]; ok {
+						return c
+					}
+					ty := typeByID[tid]
+					if ty == nil {
+						return nil
+					}
+					c := s.symValue(ty, "rvcell")
+					if p, ok := c.(*PtrV); ok {
+						p.Nil = False
+						if o := p.object(); o != nil {
+							o.Ghost = "rvcell"
+						}
+					}
+					s.rvCells[key] = c
+					return c
+				}
+				return []Value{iv}
 			}
 			ty := Const(32, 0)
 			if t, ok := v.Aux["type"].(*Term); ok {
